@@ -89,6 +89,10 @@ func checkC10(c *Ctx) error {
 			write(filepath.Join(d, "a.yaml"), valid())
 			return []string{"a.yaml", "*.yaml"}
 		}, expectOK: always(false)},
+		{name: "file-matched-by-two-spellings", prepare: func(d string) []string {
+			write(filepath.Join(d, "cfg/a.yaml"), valid())
+			return [][]string{{"cfg/a.yaml", "./cfg//a.yaml"}, {"cfg/a.yaml", "cfg/../cfg/a.yaml"}, {"./cfg/a.yaml", "cfg/a.yaml"}, {"cfg/./a.yaml", "cfg/*.yaml"}}[r.Intn(4)]
+		}, expectOK: always(false)},
 		{name: "empty-glob-only", prepare: func(d string) []string { return []string{"nothing-*.yaml"} }, expectOK: always(false)},
 		{name: "invalid-glob", prepare: func(d string) []string { write(filepath.Join(d, "a.yaml"), valid()); return []string{"a.yaml", "[x"} }, expectOK: always(false)},
 		{name: "grammar-error", prepare: func(d string) []string { write(filepath.Join(d, "a.yaml"), inject("grammar")); return []string{"a.yaml"} }, expectOK: always(false)},
